@@ -523,6 +523,30 @@ def c10_8(ctx):
                                "len(list) - 1 with num_sigs" % (ast.unparse(t), lst, seed, slack), t, mod, key="threshold:" + lst))
     if seen < 2:
         out.append(ctx.err(spec, "expected a collected-signature threshold test in both multisig arms, found %d" % seen, fn, mod))
+    # the early test on the number of partial signatures present: finalisation is refused exactly when fewer than m are there
+    # ("at least the required number of signers": m+1 signatures of an m-of-n wallet must still finalise)
+    early = 0
+    for n in cfg.tests():
+        r = rl.rel(n.ast, lambda e: ast.unparse(e) == "len(self.sigs)", lambda e: isinstance(e, ast.Name) and e.id == "num_sigs")
+        if r is None:
+            continue
+        t_succ = [b for b, l in cfg.succ[n.id] if l is True]
+        f_succ = [b for b, l in cfg.succ[n.id] if l is False]
+        raises_t = bool(t_succ) and all(cfg.nodes[b].kind == "raise" for b in t_succ)
+        raises_f = bool(f_succ) and all(cfg.nodes[b].kind == "raise" for b in f_succ)
+        if not (raises_t or raises_f):
+            continue
+        early += 1
+        refuse = r if raises_t else {"<": ">=", "<=": ">", ">": "<=", ">=": "<", "==": "!=", "!=": "=="}[r]
+        if refuse == "<":
+            out.append(ctx.ok(spec, "`%s`: finalisation is refused exactly when fewer than num_sigs partial signatures are present" % ast.unparse(n.ast), n.ast, mod,
+                              key="enough-sigs:%d" % early))
+        else:
+            out.append(ctx.bad(spec, "`%s` refuses finalisation when len(self.sigs) %s num_sigs: %s" % (
+                ast.unparse(n.ast), refuse, "an input signed by more than m cosigners (all three of a 2-of-3) cannot be finalised" if refuse in ("!=", ">", ">=")
+                else "the boundary differs from `fewer than m`"), n.ast, mod, key="enough-sigs:%d" % early))
+    if early < 2:
+        out.append(ctx.err(spec, "expected a test of len(self.sigs) against num_sigs in both multisig arms, found %d" % early, fn, mod))
     return out
 
 
@@ -621,6 +645,119 @@ def c10_11(ctx):
     return memo_obligation(ctx, ["psbt"], "a PSBT field validated once would be accepted with other contents")
 
 
+def c10_13(ctx):
+    """INDEPENDENCE of the field merges in PSBTIn.combine / PSBTOut.combine: whether a field of `other` is merged into `self`
+    may depend on that field only.  A merge that is skipped because of the state of a *different* field (an early return for
+    inputs that are already finalised, say) makes A.combine(B) and B.combine(A) keep different data"""
+    out = []
+    for spec in ("psbt:PSBTIn.combine", "psbt:PSBTOut.combine"):
+        mod, fn = rl.get(ctx, spec)
+        cfg = cfg_of(fn)
+        ps = param_names(fn)
+        me, other = ps[0], ps[1]
+
+        def fields(node):
+            return {x.attr for x in ast.walk(node) if isinstance(x, ast.Attribute) and isinstance(x.value, ast.Name) and x.value.id in (me, other)}
+        stores = []
+        for n in cfg.stmts(("stmt",)):
+            a = n.ast
+            tg = None
+            if isinstance(a, ast.Assign):
+                tg = [t for t in a.targets if isinstance(t, ast.Attribute) and isinstance(t.value, ast.Name) and t.value.id == me]
+            elif isinstance(a, ast.AugAssign) and isinstance(a.target, ast.Attribute) and isinstance(a.target.value, ast.Name) and a.target.value.id == me:
+                tg = [a.target]
+            elif isinstance(a, ast.Expr) and isinstance(a.value, ast.Call) and isinstance(a.value.func, ast.Attribute) and a.value.func.attr in ("update", "extend", "append") \
+                    and isinstance(a.value.func.value, ast.Attribute) and isinstance(a.value.func.value.value, ast.Name) and a.value.func.value.value.id == me:
+                tg = [a.value.func.value]
+            if tg:
+                stores.append((n, tg[0].attr))
+        if len(stores) < 3:
+            out.append(ctx.err(spec, "field merges not recognised (%d found)" % len(stores), fn, mod))
+            continue
+        all_nodes = cfg.reach([cfg.entry])
+        bad = None
+        for t in cfg.tests():
+            ft = fields(t.ast)
+            for lab in (True, False):
+                r = cfg.reach([cfg.entry], removed={(t.id, lab)})
+                for n, f in stores:
+                    if n.id in all_nodes and n.id not in r and ft and f not in ft:
+                        bad = (t, n, f, ft)
+                        break
+                if bad:
+                    break
+            if bad:
+                break
+        ctx.count("call_sites", len(stores))
+        if bad:
+            t, n, f, ft = bad
+            out.append(ctx.bad(spec, "the merge of `%s` (line %d) only happens depending on `%s`, a test about %s: combining in the other order keeps different fields, so the "
+                                     "combined PSBT depends on the order of combination" % (f, n.lineno, ast.unparse(t.ast), sorted(ft)), t.ast, mod, key="merge-independent"))
+        else:
+            out.append(ctx.ok(spec, "each of the %d field merges depends on its own field only" % len(stores), fn, mod, key="merge-independent"))
+    return out
+
+
+def c10_14(ctx):
+    """OWNERSHIP: extraction fills scriptSigs / witnesses into a *copy* of the PSBT's unsigned transaction.
+    (a) PSBT.final_tx mutates the inputs of `self.tx_obj.clone()`, never of self.tx_obj itself;
+    (b) Tx.clone is deep: the copy shares no TxIn / TxOut object with the original (round trip through serialise / parse, or
+        element-wise clones) -- a shallow copy of the input list hands the same TxIn objects to both transactions, so the
+        PSBT's embedded transaction acquires the final scriptSigs and is no longer a valid unsigned transaction"""
+    out = []
+    spec = "psbt:PSBT.final_tx"
+    mod, fn = rl.get(ctx, spec)
+    cfg = cfg_of(fn)
+    loops = [lp for lp in cfg.loops.values() if isinstance(lp.stmt, ast.For)]
+    src = None
+    for lp in loops:
+        for x in ast.walk(lp.stmt.iter):
+            if isinstance(x, ast.Attribute) and x.attr == "tx_ins" and isinstance(x.value, ast.Name):
+                src = (lp, x.value.id)
+    if src is None:
+        out.append(ctx.err(spec, "the loop that fills in the inputs was not found", fn, mod))
+    else:
+        lp, name = src
+        ex = expand(fn, lp.test_nodes[0] if getattr(lp, "test_nodes", None) else lp.head, ast.Name(id=name, ctx=ast.Load()))
+        if isinstance(ex, ast.Call) and call_name(ex) in ("clone", "deepcopy"):
+            out.append(ctx.ok(spec, "the transaction being filled in is `%s`" % ast.unparse(ex), lp.stmt, mod, key="final-own-copy"))
+        elif isinstance(ex, ast.Attribute) and ast.unparse(ex) == "self.tx_obj":
+            out.append(ctx.bad(spec, "the inputs of self.tx_obj itself are filled in: the PSBT's unsigned transaction gets scriptSigs", lp.stmt, mod, key="final-own-copy"))
+        else:
+            out.append(ctx.err(spec, "where the filled-in transaction comes from is not recognised: `%s`" % ast.unparse(ex)[:80], lp.stmt, mod))
+    spec = "tx:Tx.clone"
+    mod, fn = rl.get(ctx, spec)
+    cfg = cfg_of(fn)
+    rets = [n for n in cfg.returns() if n.ast is not None and n.ast.value is not None]
+    if not rets:
+        raise AnalysisError("Tx.clone returns nothing")
+    for n in rets:
+        ex = expand(fn, n.id, n.ast.value, depth=6)
+        txt = ast.unparse(ex)
+        if isinstance(ex, ast.Call) and call_name(ex) == "parse" and "serialize" in txt:
+            out.append(ctx.ok(spec, "the copy is rebuilt from the serialisation (`%s`)" % txt[:70], n.ast, mod, key="clone-deep"))
+            continue
+        if isinstance(ex, ast.Call) and call_name(ex) == "deepcopy":
+            out.append(ctx.ok(spec, "deepcopy", n.ast, mod, key="clone-deep"))
+            continue
+        shared = []
+        if isinstance(ex, ast.Call):
+            for a in list(ex.args) + [k.value for k in ex.keywords]:
+                b = a
+                if isinstance(b, ast.Subscript) and isinstance(b.slice, ast.Slice):
+                    b = b.value
+                if isinstance(b, ast.Call) and isinstance(b.func, ast.Name) and b.func.id in ("list", "tuple") and len(b.args) == 1:
+                    b = b.args[0]
+                if isinstance(b, ast.Attribute) and isinstance(b.value, ast.Name) and b.value.id == "self" and b.attr in ("tx_ins", "tx_outs"):
+                    shared.append(ast.unparse(a))
+        if shared:
+            out.append(ctx.bad(spec, "the copy is built from %s: the list may be new but its TxIn / TxOut objects are the original's, so filling in the copy's scriptSigs "
+                                     "(PSBT.final_tx) also fills in the original" % ", ".join("`%s`" % x for x in shared), n.ast, mod, key="clone-deep"))
+        else:
+            out.append(ctx.err(spec, "how the copy is built is not recognised: `%s`" % txt[:80], n.ast, mod))
+    return out
+
+
 OBLIGATIONS = [
     ("C10.12", "DATAFLOW commitment", c10_12),
     ("C10.11", "MEMO", c10_11),
@@ -634,5 +771,7 @@ OBLIGATIONS = [
     ("C10.7", "GUARD", c10_7),
     ("C10.8", "RANGE+SIBLING", c10_8),
     ("C10.9", "GUARD", c10_9),
+    ("C10.13", "INDEPENDENCE", c10_13),
+    ("C10.14", "OWNERSHIP", c10_14),
 ]
 FLOORS = {"C10.2": 14, "C10.3": 20, "C10.4": 8, "C10.5": 20, "C10.6": 6, "C10.8": 2}
